@@ -4,7 +4,7 @@
     Interface for composition (Model/Plan.v):
       tokens      = list (tag * str)             (Base/Tag.v)
       World       = record of oracles (below)
-      do_expansion overflow_checks tokenize W fuel tokens : res tokens
+      do_expansion tokenize W fuel tokens : res tokens
     [tokenize] is parse_line's token list (needed by expand_alias only).
 
     Regex uses: yes/no tests go through [rx_search] on the ASTs GENERATED from the
@@ -27,7 +27,6 @@ Definition res_map {A B} (f : A -> B) (r : res A) : res B :=
   match r with Ok a => Ok (f a) | Panic s => Panic s | OutOfFuel => OutOfFuel end.
 
 (* panic sites *)
-Definition site_range_overflow : N := 1.   (* shell.rs expand_brace_range: n += incr / n -= incr *)
 Definition site_range_unwrap : N := 2.     (* re.captures(token).unwrap() *)
 
 Definition token := (tag * str)%type.
@@ -126,24 +125,6 @@ Definition parse_i32 (s : str) : option Z :=
   let v := Z.of_N (dec_value d) in
   let z := if neg then (- v)%Z else v in
   if ((i32_min <=? z) && (z <=? i32_max))%Z then Some z else None.
-Definition wrap32 (z : Z) : Z := ((z + 2147483648) mod 4294967296 - 2147483648)%Z.
-
-(** str::parse::<usize> (64-bit): optional '+', ASCII digits+, value < 2^64 *)
-Definition parse_usize (s : str) : option N :=
-  let d := match strip_prefix [43] s with Some r => r | None => s end in
-  if is_empty d || negb (forallb is_digit d) then None else
-  let v := dec_value d in
-  if v <? 18446744073709551616 then Some v else None.
-
-(** format! with one hole: evaluates {{ }} {} of a template literal *)
-Fixpoint fmt1 (tpl arg : str) : str :=
-  match tpl with
-  | [] => []
-  | 123 :: 123 :: r => 123 :: fmt1 r arg
-  | 125 :: 125 :: r => 125 :: fmt1 r arg
-  | 123 :: 125 :: r => arg ++ fmt1 r arg
-  | c :: r => c :: fmt1 r arg
-  end.
 
 (* ------------------------------------------------------------------ index buffers *)
 (** [tokens.remove(i); for (j, t) in items { tokens.insert(i + j, t) }] *)
@@ -183,52 +164,6 @@ Fixpoint set_text (i : nat) (text : str) (toks : tokens) : tokens :=
   | t :: r, S k => t :: set_text k text r
   end.
 
-(* ------------------------------------------------------------------ Regex::replace templates *)
-(** regex-automata util/interpolate.rs: [$$], [$name], [${name}], [$1]; a reference to a
-    group that does not exist (or did not participate) expands to nothing. *)
-Definition cap_ref (G : N -> str) (NM : str -> option N) (name : str) : str :=
-  match parse_usize name with
-  | Some i => G i
-  | None => match NM name with Some i => G i | None => [] end
-  end.
-
-(** [r] = the template text after a [$] that is not followed by [$]; returns the
-    expansion of the reference and how many characters of [r] it spans *)
-Definition find_cap_ref (G : N -> str) (NM : str -> option N) (r : str) : option (str * nat) :=
-  match r with
-  | [] => None
-  | d :: r' =>
-      if d =? 123 then
-        match split_first 125 r' with
-        | Some (name, _) => Some (cap_ref G NM name, S (S (length name)))
-        | None => None
-        end
-      else let (name, _) := span is_alnum_us r in
-           if is_empty name then None else Some (cap_ref G NM name, length name)
-  end.
-
-Fixpoint tpl_go (G : N -> str) (NM : str -> option N) (skip : nat) (t : str) : str :=
-  match t with
-  | [] => []
-  | c :: r =>
-      match skip with
-      | S k => tpl_go G NM k r
-      | O =>
-          if c =? 36 then
-            match r with
-            | [] => [36]
-            | d :: _ =>
-                if d =? 36 then 36 :: tpl_go G NM 1 r
-                else match find_cap_ref G NM r with
-                     | None => 36 :: tpl_go G NM 0 r
-                     | Some (txt, n) => txt ++ tpl_go G NM n r
-                     end
-            end
-          else c :: tpl_go G NM 0 r
-      end
-  end.
-Definition expand_template (G : N -> str) (NM : str -> option N) (t : str) : str := tpl_go G NM 0 t.
-
 (* ------------------------------------------------------------------ expand_alias *)
 Fixpoint alias_collect (W : World) (toks : tokens) (idx : nat) (is_head : bool) : list (nat * str) :=
   match toks with
@@ -247,12 +182,10 @@ Definition expand_alias (tokenize : str -> tokens) (W : World) (toks : tokens) :
   apply_buff (map (fun e => (fst e, tokenize (snd e))) (alias_collect W toks 0 true)) toks.
 
 (* ------------------------------------------------------------------ expand_home *)
-(** re.replace_all(text, to) with re = src_home, to = fmt1 src_home_template home; [rest] = text after the ~ *)
+(** re.replace_all(text, |caps| home + caps[tail]) with re = src_home (since 1c7eddf the home directory is
+    text, not a replacement template); [rest] = text after the ~ ; the tail group stops at a newline *)
 Definition home_replace (W : World) (rest : str) : str :=
-  let (tl, post) := split_nl rest in
-  let G := fun i : N => if i =? 0 then 126 :: tl else if i =? 1 then tl else [] in
-  let NM := fun n : str => if str_eqb n (s2l "tail") then Some 1 else None in
-  expand_template G NM (fmt1 src_home_template (home W)) ++ post.
+  let (tl, post) := split_nl rest in (home W ++ tl) ++ post.
 
 Definition expand_home_tok (W : World) (t : token) : token :=
   if tag_is_empty (fst t) then
@@ -270,58 +203,11 @@ Definition env_in_token (t : str) : bool :=
   else if rx_search rx_env_sub1 t || rx_search rx_env_sub2 t || rx_search rx_env_sub3 t then false
   else negb (rx_search rx_env_alias t).
 
-(* first-match functions for re1 (src_env_re1: anchored, lazy head, dollar, KEY, rest) and
-   re2 (src_env_re2: lazy head, dollar, open brace, KEY, close brace, rest, end anchor);
-   KEY = one or more of [A-Za-z0-9_], or a dollar, or a question mark (greedy name) *)
-Definition key_at (s : str) : option (str * str) :=
-  match s with
-  | [] => None
-  | c :: r => if is_alnum_us c then Some (span is_alnum_us s)
-              else if (c =? 36) || (c =? 63) then Some ([c], r) else None
-  end.
-
-Definition bkey_at (s : str) : option (str * str) :=
-  match s with
-  | [] => None
-  | c :: r =>
-      if is_alnum_us c then
-        let (k, t) := span is_alnum_us s in
-        match strip_prefix [125] t with Some t' => Some (k, t') | None => None end
-      else if (c =? 36) || (c =? 63) then
-        match strip_prefix [125] r with Some t' => Some ([c], t') | None => None end
-      else None
-  end.
-
-Fixpoint find_re1 (s : str) : option (str * str * str) :=
-  match s with
-  | [] => None
-  | c :: r =>
-      match (if c =? 36 then key_at r else None) with
-      | Some (k, t) => Some ([], k, t)
-      | None => match find_re1 r with Some (h, k, t) => Some (c :: h, k, t) | None => None end
-      end
-  end.
-
-Fixpoint find_re2 (s : str) : option (str * str * str) :=
-  match s with
-  | [] => None
-  | c :: r =>
-      match (if c =? 36 then match strip_prefix [123] r with Some r' => bkey_at r' | None => None end else None) with
-      | Some (k, t) => Some ([], k, t)
-      | None => match find_re2 r with Some (h, k, t) => Some (c :: h, k, t) | None => None end
-      end
-  end.
-
-(** [.] does not match a newline and re1 is anchored at both ends: no newline at all *)
-Definition re1_captures (tok : str) : option (str * str * str) :=
-  if contains_char 10 tok then None else find_re1 tok.
-
-(** re2 is anchored at the end only: the leftmost start from which head, key and tail
-    (none of which crosses a newline) reach the end is the start of the last line;
-    whatever precedes it is not part of the match and is DROPPED by the caller *)
-Definition last_line (s : str) : str :=
-  match split_last 10 s with Some (_, b) => b | None => s end.
-Definition re2_captures (tok : str) : option (str * str * str) := find_re2 (last_line tok).
+(** since e586def parameter expansion is ONE left-to-right scan: the value of a reference is
+    appended and never looked at again (no fuel: the scan is structural).  The former loop
+    [while env_in_token { expand_one_env }] and its regex first-match functions live in
+    Historical/ExpandLoop.v. *)
+Definition is_name_start (c : char) : bool := is_alpha c || (c =? 95).
 
 Definition lookup_var (W : World) (key : str) : option str :=
   match env_var W key with
@@ -334,30 +220,51 @@ Definition key_value (W : World) (key : str) : str :=
   else if str_eqb key [36] then z_to_dec (pid W)
   else match lookup_var W key with Some v => v | None => [] end.
 
-Definition expand_one_env (W : World) (tok : str) : str :=
-  match (match re1_captures tok with Some c => Some c | None => re2_captures tok end) with
-  | None => tok
-  | Some (head, key, tail) => head ++ key_value W key ++ tail
+(** the reference at the start of [s], which follows a dollar: key and number of chars spanned *)
+Definition env_ref_at (s : str) : option (str * nat) :=
+  match s with
+  | [] => None
+  | c :: r =>
+      if (c =? 63) || (c =? 36) then Some ([c], 1%nat)
+      else if is_name_start c then
+        let n := fst (span is_alnum_us s) in Some (n, length n)
+      else if c =? 123 then
+        match r with
+        | [] => None
+        | d :: r' =>
+            if ((d =? 63) || (d =? 36)) && starts_with [125] r' then Some ([d], 3%nat)
+            else if is_name_start d then
+              let n := fst (span is_alnum_us r) in
+              if starts_with [125] (snd (span is_alnum_us r)) then Some (n, (length n + 2)%nat) else None
+            else None
+        end
+      else None
   end.
 
-(** [while env_in_token(&_token) { _token = expand_one_env(sh, &_token); }] *)
-Fixpoint expand_env_loop (fuel : nat) (W : World) (t : str) : res str :=
-  match fuel with
-  | O => OutOfFuel
-  | S f => if env_in_token t then expand_env_loop f W (expand_one_env W t) else Ok t
+(** the [while i < chars.len()] loop; [skip] = how many chars the last reference still covers *)
+Fixpoint once_go (W : World) (skip : nat) (t : str) : str :=
+  match t with
+  | [] => []
+  | c :: r =>
+      match skip with
+      | S k => once_go W k r
+      | O =>
+          if c =? 36 then
+            match env_ref_at r with
+            | Some (key, n) => key_value W key ++ once_go W n r
+            | None => 36 :: once_go W 0 r
+            end
+          else c :: once_go W 0 r
+      end
   end.
+Definition expand_env_once (W : World) (t : str) : str := once_go W 0 t.
 
-Definition expand_env_tok (fuel : nat) (W : World) (t : token) : res token :=
+Definition expand_env_tok (W : World) (t : token) : token :=
   match fst t with
-  | TBq | TSq => Ok t
-  | _ => if env_in_token (snd t) then res_map (fun s => (fst t, s)) (expand_env_loop fuel W (snd t)) else Ok t
+  | TBq | TSq => t
+  | _ => if env_in_token (snd t) then (fst t, expand_env_once W (snd t)) else t
   end.
-
-Fixpoint expand_env (fuel : nat) (W : World) (toks : tokens) : res tokens :=
-  match toks with
-  | [] => Ok []
-  | t :: r => bind (expand_env_tok fuel W t) (fun t' => res_map (cons t') (expand_env fuel W r))
-  end.
+Definition expand_env (W : World) (toks : tokens) : tokens := map (expand_env_tok W) toks.
 
 (* ------------------------------------------------------------------ expand_brace *)
 Definition need_expand_brace (s : str) : bool := rx_search rx_need_brace s.
@@ -412,7 +319,7 @@ with brace_getgroup_f (fuel : nat) (s : str) (depth : nat) (out : list str) (com
                   let out' := out ++ g in
                   if c =? 125 then
                     if comma then Ok (Some (out', r))
-                    else Ok (Some (map (fun x => [123] ++ x ++ [125]) out', ss))
+                    else Ok (Some (map (fun x => [123] ++ x ++ [125]) out', r))
                   else if c =? 44 then brace_getgroup_f f r depth out' true
                   else brace_getgroup_f f ss depth out' comma
               end
@@ -474,33 +381,35 @@ Fixpoint find_range (s : str) : option (str * str * option str) :=
       end
   end.
 
-Definition step32 (oc : bool) (z : Z) : res Z :=
-  if ((i32_min <=? z) && (z <=? i32_max))%Z then Ok z
-  else if oc then Panic site_range_overflow else Ok (wrap32 z).
-
-Fixpoint range_up (fuel : nat) (oc : bool) (n e incr : Z) : res (list str) :=
+(** [n = match n.checked_add(incr) { Some(x) => x, None => break }] : the loop ends at the i32 boundary;
+    debug and release builds behave alike, nothing can panic *)
+Fixpoint range_up (fuel : nat) (n e incr : Z) : res (list str) :=
   match fuel with
   | O => OutOfFuel
   | S f => if (n <=? e)%Z
-           then bind (step32 oc (n + incr)) (fun n' => res_map (cons (z_to_dec n)) (range_up f oc n' e incr))
+           then (if (n + incr <=? i32_max)%Z
+                 then res_map (cons (z_to_dec n)) (range_up f (n + incr)%Z e incr)
+                 else Ok [z_to_dec n])
            else Ok []
   end.
 
-Fixpoint range_down (fuel : nat) (oc : bool) (n e incr : Z) : res (list str) :=
+Fixpoint range_down (fuel : nat) (n e incr : Z) : res (list str) :=
   match fuel with
   | O => OutOfFuel
   | S f => if (n >=? e)%Z
-           then bind (step32 oc (n - incr)) (fun n' => res_map (cons (z_to_dec n)) (range_down f oc n' e incr))
+           then (if (i32_min <=? n - incr)%Z
+                 then res_map (cons (z_to_dec n)) (range_down f (n - incr)%Z e incr)
+                 else Ok [z_to_dec n])
            else Ok []
   end.
 
 Definition range_fuel (a b incr : Z) : nat := Z.to_nat (Z.abs (b - a) / incr) + 2.
 
-Definition range_list (oc : bool) (a b incr : Z) : res (list str) :=
-  if (a >? b)%Z then range_down (range_fuel a b incr) oc a b incr
-  else range_up (range_fuel a b incr) oc a b incr.
+Definition range_list (a b incr : Z) : res (list str) :=
+  if (a >? b)%Z then range_down (range_fuel a b incr) a b incr
+  else range_up (range_fuel a b incr) a b incr.
 
-Definition range_sel (oc : bool) (t : token) : res selr :=
+Definition range_sel (t : token) : res selr :=
   if negb (tag_is_empty (fst t)) || negb (rx_search rx_brace_range (snd t)) then Ok Skip
   else match find_range (snd t) with
        | None => Panic site_range_unwrap
@@ -511,13 +420,13 @@ Definition range_sel (oc : bool) (t : token) : res selr :=
                | None => Ok Abort
                | Some i0 =>
                    let incr := if (i0 <=? 1)%Z then 1%Z else i0 in
-                   res_map (fun l => Repl (map retag l)) (range_list oc a b incr)
+                   res_map (fun l => Repl (map retag l)) (range_list a b incr)
                end
            | _, _ => Ok Abort
            end
        end.
 
-Definition expand_brace_range (oc : bool) (toks : tokens) : res tokens := run_pass (range_sel oc) toks.
+Definition expand_brace_range (toks : tokens) : res tokens := run_pass range_sel toks.
 
 (* ------------------------------------------------------------------ expand_glob *)
 Definition needs_globbing (s : str) : bool := rx_search rx_needs_glob s.
@@ -589,13 +498,11 @@ Definition head_of (before : str) : str * str :=
   | None => ([], before)
   end.
 
+(** since 5e2d7b7 the replacer is a closure that concatenates the head group, the output and the tail
+    group: the output is text *)
 Definition dollar_splice (before cmd tail post out : str) : str :=
   let (pre, head) := head_of before in
-  let whole := head ++ [36; 40] ++ cmd ++ [41] ++ tail in
-  let G := fun i : N => if i =? 0 then whole else if i =? 1 then head else if i =? 2 then tail else [] in
-  let NM := fun n : str => if str_eqb n (s2l "head") then Some 1
-                           else if str_eqb n (s2l "tail") then Some 2 else None in
-  pre ++ expand_template G NM (fmt1 src_dollar_template out) ++ post.
+  pre ++ (head ++ out ++ tail) ++ post.
 
 (** the [loop] of do_command_substitution_for_dollar on one token; the log lists the
     lines handed to CommandLine::from_line (run when they plan), in order.
@@ -608,10 +515,8 @@ Fixpoint dollar_loop (fuel : nat) (W : World) (line : str) (log : list str) : re
       else match find_dollar line with
            | None => Ok (None, log)
            | Some (before, cmd, tail, post) =>
-               match run_capture W cmd with
-               | None => dollar_loop f W line (log ++ [cmd])
-               | Some out => dollar_loop f W (dollar_splice before cmd tail post (trim out)) (log ++ [cmd])
-               end
+               let out := match run_capture W cmd with Some o => o | None => [] end in
+               dollar_loop f W (dollar_splice before cmd tail post (trim out)) (log ++ [cmd])
            end
   end.
 
@@ -725,19 +630,19 @@ Definition is_export_prompt (toks : tokens) : bool :=
   end.
 
 (** the passes in the order of shell.rs do_expansion; also returns the command-substitution log *)
-Definition do_expansion_log (oc : bool) (tokenize : str -> tokens) (W : World) (fuel : nat) (toks : tokens)
+Definition do_expansion_log (tokenize : str -> tokens) (W : World) (fuel : nat) (toks : tokens)
   : res (tokens * list str) :=
   if is_arithmetic (tokens_to_line toks) then Ok (toks, [])
   else if is_export_prompt toks then Ok (toks, [])
   else
     let t1 := expand_alias tokenize W toks in
     let t2 := expand_home W t1 in
-    bind (expand_env fuel W t2) (fun t3 =>
+    let t3 := expand_env W t2 in
     bind (expand_brace t3) (fun t4 =>
     bind (expand_glob W t4) (fun t5 =>
     bind (do_command_substitution fuel W t5) (fun x =>
-    res_map (fun t7 => (t7, snd x)) (expand_brace_range oc (fst x)))))).
+    res_map (fun t7 => (t7, snd x)) (expand_brace_range (fst x))))).
 
-Definition do_expansion (oc : bool) (tokenize : str -> tokens) (W : World) (fuel : nat) (toks : tokens)
+Definition do_expansion (tokenize : str -> tokens) (W : World) (fuel : nat) (toks : tokens)
   : res tokens :=
-  res_map fst (do_expansion_log oc tokenize W fuel toks).
+  res_map fst (do_expansion_log tokenize W fuel toks).
